@@ -39,11 +39,13 @@ const basePrelude = `(declare-sort Str 0)
 (declare-fun unhex (Str) Bytes)
 `
 
+// ixShiftFact: re-slicing s[1:] (queues): element i of the tail is element i+1 of the original - names the shifted
+// term so that quantified facts about the original slice instantiate. Opt-in per contract (`uses ixshift`): it slows
+// model-based quantifier instantiation down on proofs that do not need it.
+const ixShiftFact = "(forall ((o Int) (i Int)) (! (= (ix (+ o 1) i) (ix o (+ i 1))) :pattern ((ix (+ o 1) i))))"
+
 var basePreludeFacts = []string{
 	"(forall ((o Int) (i Int)) (! (= (ix o i) (+ o i)) :pattern ((ix o i))))",
-	// re-slicing s[1:] (queues): element i of the tail is element i+1 of the original - names the shifted term so that
-	// quantified facts about the original slice instantiate
-	"(forall ((o Int) (i Int)) (! (= (ix (+ o 1) i) (ix o (+ i 1))) :pattern ((ix (+ o 1) i))))",
 	"(= (blen bnil) 0)",
 	"(= (slen str_empty) 0)",
 	"(forall ((s Str)) (! (>= (slen s) 0) :pattern ((slen s))))",
